@@ -120,6 +120,33 @@ func init() {
 				e.parseOracleOnly("mut", string(src))
 			}
 		}
+		// token-level mutations of valid templates: delete each token, or replace it
+		// by each of a few other tokens (exhaustive over the battery)
+		repl := []string{")", "{", "}", "%>", "else", ",", "x"}
+		seenMut := map[string]bool{}
+		for bi, src := range battery {
+			if !e.Thorough() && bi%2 == 1 {
+				continue
+			}
+			toks := tokenSpans(src)
+			for ti := range toks {
+				variants := []string{src[:toks[ti][0]] + src[toks[ti][1]:]}
+				for _, rp := range repl {
+					variants = append(variants, src[:toks[ti][0]]+rp+src[toks[ti][1]:])
+				}
+				for vi, v := range variants {
+					if seenMut[v] {
+						continue
+					}
+					seenMut[v] = true
+					if vi == 0 && (bi+ti)%5 == 0 {
+						e.addParseCase("tokmut", v)
+					} else {
+						e.parseOracleOnly("tokmut", v)
+					}
+				}
+			}
+		}
 		// nesting towers
 		for _, unit := range [][2]string{{"(", ")"}, {"[", "]"}, {"{a: ", "}"}, {"!", ""}, {"-", ""}, {"f(", ")"}, {"x[", "]"}, {"fn(){ return ", " }"}, {"if (a) { ", " }"}, {"for (v) in xs { ", " }"}, {"a + ", ""}, {"a.b(", ")"}} {
 			for _, depth := range []int{1, 8, 64, 256} {
@@ -147,4 +174,69 @@ func init() {
 			e.addParseCase("corpus", in)
 		}
 	})
+}
+
+// byte spans of the code tokens of a template (crude: maximal runs of letters /
+// digits / dots, quoted strings, two-byte operators, single punctuation bytes,
+// inside <% %> tags only)
+func tokenSpans(src string) [][2]int {
+	var spans [][2]int
+	inside := false
+	i := 0
+	isWord := func(c byte) bool {
+		return c == '_' || c == '.' || c >= '0' && c <= '9' || c >= 'a' && c <= 'z' || c >= 'A' && c <= 'Z'
+	}
+	for i < len(src) {
+		if !inside {
+			if strings.HasPrefix(src[i:], "<%") {
+				inside = true
+				j := i + 2
+				if j < len(src) && (src[j] == '=' || src[j] == '#') {
+					j++
+				}
+				spans = append(spans, [2]int{i, j})
+				i = j
+			} else {
+				i++
+			}
+			continue
+		}
+		c := src[i]
+		switch {
+		case c == ' ' || c == '\n' || c == '\t' || c == '\r':
+			i++
+		case strings.HasPrefix(src[i:], "%>"):
+			spans = append(spans, [2]int{i, i + 2})
+			i += 2
+			inside = false
+		case c == '"' || c == '`':
+			j := i + 1
+			for j < len(src) && src[j] != c {
+				if src[j] == '\\' {
+					j++
+				}
+				j++
+			}
+			if j < len(src) {
+				j++
+			}
+			spans = append(spans, [2]int{i, j})
+			i = j
+		case isWord(c):
+			j := i
+			for j < len(src) && isWord(src[j]) {
+				j++
+			}
+			spans = append(spans, [2]int{i, j})
+			i = j
+		default:
+			j := i + 1
+			if j < len(src) && strings.Contains("== != <= >= && || ~=", src[i:j+1]) && len(src[i:j+1]) == 2 {
+				j++
+			}
+			spans = append(spans, [2]int{i, j})
+			i = j
+		}
+	}
+	return spans
 }
